@@ -420,7 +420,7 @@ def pred_c20(prog, tr):
                     # generated-source mode: the runtime name of the function the registration stands for
                     # (the one named with LocationForPC, if given)
                     reg = prog["ops"][e["op"]]
-                    want = "F%d" % (reg["loc"] if "loc" in reg.get("opts", []) else reg["fn"])
+                    want = "F%d" % (reg["loc"] if "loc" in reg.get("opts", []) and reg["loc"] else reg["fn"])
                     if e["name"] != want:
                         bad.append("op %d: callback of op %d reports the name %s, the function is %s" % (i, e["op"], e["name"], want))
     return bad
